@@ -162,9 +162,13 @@ func (sc *Scheduler) Schedule(ctx context.Context, g *ExecutionGraph, done chan 
 					_ = sc.teardownNode(node)
 				}()
 
+				// succeeded tells whether the most recent execution of the
+				// node returned without error.
+				succeeded := false
 			ExecRepeat:
 				for setupSucceed && !sc.isCanceled() {
 					execErr := sc.execNode(ctx, node)
+					succeeded = execErr == nil
 					if execErr != nil {
 						status := node.State().Status
 						switch {
@@ -216,9 +220,16 @@ func (sc *Scheduler) Schedule(ctx context.Context, g *ExecutionGraph, done chan 
 					}
 					break ExecRepeat
 				}
-				// finish the node
+				// finish the node: it succeeded only if it was really executed
+				// and its last execution returned no error; a node that a
+				// stop request overtook before (or right after) its execution
+				// is canceled, not finished.
 				if node.State().Status == NodeStatusRunning {
-					node.setStatus(NodeStatusSuccess)
+					if succeeded {
+						node.setStatus(NodeStatusSuccess)
+					} else {
+						node.setStatus(NodeStatusCancel)
+					}
 				}
 				if err := sc.teardownNode(node); err != nil {
 					sc.setLastError(err)
